@@ -59,7 +59,7 @@ def toksOfWords (ws : List String) : Option (List Tok) := ws.mapM tokOfWord
 
 def litAst : Lit → String
   | .int n => s!"I{n}" | .real g => "R" ++ hexL g | .str s => "S" ++ hexL s | .estr s => "ES" ++ hex s | .bin s => "B" ++ hex s
-  | .ltrue => "TRUE" | .lfalse => "FALSE" | .lunknown => "UNKNOWN" | .pi => "PI" | .e => "E" | .infinity => "?" | .self => "SELF"
+  | .ltrue => "TRUE" | .lfalse => "FALSE" | .lunknown => "UNKNOWN" | .pi => "PI" | .e => "CONST_E" | .infinity => "?" | .self => "SELF"
 
 def astStr : Expr → String
   | .lit l => litAst l
